@@ -58,10 +58,14 @@ GRID_LIMITS, CWS = (0.5, 2.0, 3.0), (0.0, 0.3, 0.5, 1.0)
 YVALS = (0.0, 0.25, 0.5, 1.0)
 
 
+DP_INDEX = list(E.MOMENTS).index("DemographicParity")
 # seed-independent edge cases: first group without positives (TPR parity), labels of one class missing in a group (equalized odds), constant real labels
 EDGE = [(2, (0, 1, 0, 1), (0, 0, 1, 0), (1, 1, 0, 0), 2, 0, 5, 2.0, 0.5, 0, False),
         (2, (0, 1, 0, 1, 1, 0), (1, 0, 1, 1, 0, 0), (0, 0, 1, 1, 2, 2), 1, 1, 9, 2.0, 0.5, 1, True),
         (2, (0, 1, 1, 1, 0), (1.0, 1.0, 1.0, 1.0, 1.0), (2, 1, 1, 1, 0), "BGL", 0, 4, 2.0, 0.5, 0, False)]
+# the recorded failing input of every repaired defect filed under this property stays a case for ever ("fixed" suppresses nothing: known_findings.json,
+# C09:fit:raises, repo fix 07628bc: a grid multiplier that makes every signed weight zero) - with the default and the extreme constraint weights
+EDGE += [(3, (0, 1, 1, 2, 2), (0, 1, 1, 0, 0), (0, 1, 1, 2, 2), DP_INDEX, 1, 8, 2.0, cw_, 0, False) for cw_ in (0.5, 1.0, 0.0)]
 
 
 def _dataset(rng):
